@@ -15,7 +15,7 @@
    completed_tasks_queue (FIFO)             | complq
    task.result                              | results (association list)
    pop_runnable_tasks                       | pop_runnable
-   handle_task's decision                   | decide  (dependency results first, then ctx_skip, truthiness of the reason)
+   handle_task's decision                   | decide  (dependency results first, then ctx_skip; `is not None` test)
    RunContext.is_task_to_be_skipped         | ctx_skip
    KeyboardInterrupt in the main loop       | MInterrupt (enable_task_abort; skip_all_tasks: skip jobs, still in dependency order)
    a worker thread killed by BaseException  | MDie (the job never reaches the completion queue)
@@ -146,8 +146,7 @@ Definition ctx_skip (stop_on_failure : bool) (c : ctx) (t : task) : option reaso
            else if stop_on_failure && c_has_failures c then Some RStopOnFailure
            else None
        end.
-(* `if skip_reason:` — an empty string is falsy *)
-Definition truthy (r : reason) : bool := match r with RHandler true => false | _ => true end.
+(* handle_task: `if skip_reason is not None:` — the reason may be the empty string (RHandler true) and still skips *)
 
 Definition decide (g : graph) (sof : bool) (s : st) (i : nat) (j : job) : mode :=
   match j with
@@ -156,7 +155,7 @@ Definition decide (g : graph) (sof : bool) (s : st) (i : nat) (j : job) : mode :
       match dep_skip s (t_succ (get_task g i)) with
       | Some r => Skip r
       | None => match ctx_skip sof (cx s) (get_task g i) with
-                | Some r => if truthy r then Skip (Some r) else Run
+                | Some r => Skip (Some r)
                 | None => Run
                 end
       end
